@@ -259,7 +259,13 @@ def _classify(i1, i2):
 def _mk_clip(start, end):
     from soundevent import data
 
-    rec = data.Recording(path="a.wav", duration=100.0, channels=1, samplerate=8000)
+    # the predicate is about the clip's time extent only; what else the recording says (time expansion of a bat
+    # detector, sample rate, duration, channels, coordinates) varies from call to call and must not matter
+    _mk_clip.n = getattr(_mk_clip, "n", 0) + 1
+    kw = [dict(duration=100.0, channels=1, samplerate=8000), dict(duration=100.0, channels=1, samplerate=8000, time_expansion=10.0),
+          dict(duration=3.5, channels=2, samplerate=384000, time_expansion=0.5), dict(duration=86400.0, channels=4, samplerate=250, latitude=-12.5, longitude=130.0),
+          dict(duration=100.0, channels=1, samplerate=44100, time_expansion=8.0)][_mk_clip.n % 5]
+    rec = data.Recording(path="a.wav", **kw)
     return data.Clip(recording=rec, start_time=start, end_time=end)
 
 
@@ -323,6 +329,10 @@ def judge_geoms(ctx, axis, s1, s2, a, r):
 def run(ctx):
     install()
     rng = ctx.rng
+    from rv.props import concurrent_jobs
+
+    concurrent_jobs.run_some(ctx, "C12")        # the same calls from a thread pool (rv/core/threads.py)
+    ctx.must_monitors.append("concurrent_calls")
     ctx.rule = (
         "interval / geometry / clip placements; directed + exhaustive dyadic grid + random floats; "
         "non-trivial = the two intervals (extents) are not identical; distinct = distinct case spec"
@@ -542,4 +552,5 @@ def replay(ctx, w):
     elif k in ("temporal", "frequency"):
         judge_geoms(ctx, k, s["g1"], s["g2"], s["abs"], s["rel"])
     elif k == "in_clip":
-        judge_in_clip(ctx, s["g"], s["clip"][0], s["clip"][1], s["m"])
+        for _ in range(5):          # once per kind of recording the clip may belong to (see _mk_clip)
+            judge_in_clip(ctx, s["g"], s["clip"][0], s["clip"][1], s["m"])
